@@ -87,6 +87,20 @@ def check(ctx):
     stores = [(f, c) for f, c in calls_in(init) if isinstance(c.func, ast.Attribute) and c.func.attr == "__setitem__"
               and isinstance(c.func.value, ast.Call) and norm(c.func.value.func) == "super"]
     ctx.count("storage writes in the constructor", len(stores), 1)
+    from ..pattern import pmatch, pstmt, text
+    nd = []
+    NR = None
+    for n in body_nodes(init.node):
+        b = pstmt(f"_N = max(map(util.length, {s0}.values()), default=0)", n) if isinstance(n, ast.Assign) else None
+        if b is not None:
+            nd.append(n)
+            NR = b["_N"]
+    ok_n = len(nd) == 1
+    ctx.ob("STO-1", init, text(nd[0]) if nd else "nrow = max(map(util.length, self.values()), default=0)", nd[0] if nd else init.node, ok_n,
+           "row count is the maximum input length (0 for no columns)" if ok_n else
+           "row count is not max(lengths of all values, default=0): shorter columns are no longer the ones broadcast / empty input fails",
+           clause="broadcast to the row count")
+    env_n = {"_N": NR} if NR is not None else {}
     for f, c in stores:
         v = c.args[1] if len(c.args) > 1 else None
         vals = [v]
@@ -96,28 +110,23 @@ def check(ctx):
         why = ""
         for val in vals:
             good = (isinstance(val, ast.Call) and repo.dotted(init, val.func) == DFC
-                    and kw(val, "nrow") is not None and norm(kw(val, "nrow")) == "nrow")
+                    and pmatch("__(__, nrow=_N)", val, env_n) is not None and NR is not None)
             if not good:
                 ok = False
-                why = f"constructor stores {norm(val) if val is not None else '?'} which is not DataFrameColumn(value, nrow=nrow)"
+                why = f"constructor stores {norm(val) if val is not None else '?'} which is not DataFrameColumn(value, nrow=<the common row count>)"
         ctx.ob("STO-1", init, norm(c), c, ok, why or "only DataFrameColumn(value, nrow=nrow) is stored: broadcast or reject",
                clause="scalars and length-one values are broadcast; mismatches rejected")
-    # nrow is the maximum length with default 0
-    nd = [n for n in body_nodes(init.node) if isinstance(n, ast.Assign) and norm(n.targets[0]) == "nrow"]
-    ok = len(nd) == 1 and isinstance(nd[0].value, ast.Call) and norm(nd[0].value.func) == "max" \
-        and kw(nd[0].value, "default") is not None and norm(kw(nd[0].value, "default")) == "0" \
-        and "length" in norm(nd[0].value) and "values()" in norm(nd[0].value)
-    ctx.ob("STO-1", init, norm(nd[0]) if nd else "nrow = ...", nd[0] if nd else init.node, ok,
-           "row count is the maximum input length (0 for no columns)" if ok else
-           "row count is not max(lengths, default=0): shorter columns are no longer the ones broadcast / empty input fails",
-           clause="broadcast to the row count")
     # the skip (continue) only for conforming columns
     for n in body_nodes(init.node):
         if isinstance(n, ast.Continue):
             facts = facts_at(init, n)
             ft = {t for k, t in facts if k == "T"}
-            ok = any(t.startswith("isinstance(") and "DataFrameColumn" in t for t in ft) and \
-                any(("nrow == nrow" in t.replace("value.", "")) or t.endswith(".nrow == nrow") or t.endswith(".length == nrow") for t in ft)
+            nr = text(NR) if NR is not None else "nrow"
+            inst = [t for t in ft if t.startswith("isinstance(") and "DataFrameColumn" in t]
+            ok = False
+            if inst:
+                var = inst[0][len("isinstance("):].split(",")[0]
+                ok = any(t in (f"{var}.nrow == {nr}", f"{nr} == {var}.nrow", f"{var}.length == {nr}") for t in ft)
             ctx.ob("STO-1", init, "continue (value kept as is)", n, ok,
                    "a value is kept as is only when it is a DataFrameColumn of exactly nrow elements" if ok else
                    f"a value can be kept unconverted without being a DataFrameColumn of the common length (facts: {sorted(ft)})",
@@ -302,7 +311,8 @@ def check(ctx):
         g = None
         if ok:
             facts = facts_at(a, sets[0])
-            g = sorted((k, t.replace("__hasattr", "_DataFrame__hasattr")) for k, t in facts if "hasattr" in t or "isidentifier" in t)
+            keyv = norm(sets[0].args[0]) if sets[0].args else "key"
+            g = sorted((k, t.replace("__hasattr", "_DataFrame__hasattr").replace(keyv, "KEY")) for k, t in facts if "hasattr" in t or "isidentifier" in t)
             ok = any(k == "F" and "hasattr" in t for k, t in g) and any(k == "T" and "isidentifier" in t for k, t in g)
             ok = ok and len(sets[0].args) == 2 and "COLUMN_PLACEHOLDER" in norm(sets[0].args[1])
         guards.append(g)
